@@ -6,9 +6,8 @@
 //     chain reads are answered from the World's tables, chain-mutating calls are recorded;
 //   - the typed read wrappers of pkg/morph/client/{container,netmap,balance} (answered from typed tables);
 //   - util.SingleAsyncExecutingInstance (timer tick executor) runs the task inline;
-//   - the processors' ants worker pools are real, of capacity 1; after each delivery the world submits a
-//     sentinel task to every pool and waits for it (a capacity-1 pool runs tasks one after another, so the
-//     sentinel finishing implies the event's task finished: no sleeping, no time-based polling).
+//   - the processors' ants worker pools are real (capacity 2: a parked harness anchor + one event); after each
+//     delivery the world waits until every pool is back to the anchor only (see Quiesce: exact, no sleeping).
 //
 // Events are delivered as raw chain artefacts (state.ContainedNotificationEvent, result.NotaryRequestEvent,
 // block.Header) to the real event listener code (preparator, parsers, registered handlers).
@@ -34,6 +33,7 @@ import (
 	"github.com/nspcc-dev/neo-go/pkg/encoding/fixedn"
 	"github.com/nspcc-dev/neo-go/pkg/neorpc/result"
 	"github.com/nspcc-dev/neo-go/pkg/util"
+	"github.com/nspcc-dev/neo-go/pkg/vm/stackitem"
 	"github.com/nspcc-dev/neo-go/pkg/wallet"
 	"github.com/nspcc-dev/neofs-node/pkg/innerring"
 	irconfig "github.com/nspcc-dev/neofs-node/pkg/innerring/config"
@@ -54,6 +54,9 @@ import (
 	pneofs "github.com/nspcc-dev/neofs-node/pkg/innerring/processors/neofs"
 	pnetmap "github.com/nspcc-dev/neofs-node/pkg/innerring/processors/netmap"
 	preputation "github.com/nspcc-dev/neofs-node/pkg/innerring/processors/reputation"
+	"github.com/nspcc-dev/neofs-node/pkg/innerring/processors/netmap/nodevalidation/availability"
+	"github.com/nspcc-dev/neofs-node/pkg/innerring/processors/netmap/nodevalidation/external"
+	"github.com/nspcc-dev/neofs-node/pkg/innerring/processors/netmap/nodevalidation/privatedomains"
 	"go.uber.org/zap"
 )
 
@@ -144,9 +147,13 @@ type World struct {
 	nCli   int
 	dir    string
 	cancel context.CancelFunc
+	ctx    context.Context
+	errCh  chan error
 	names  map[util.Uint160]string
 	pools     []*ants.Pool
 	poolNames []string
+	poolRank  map[*ants.Pool]int
+	anchor    chan struct{}
 
 	StartErr error
 }
@@ -220,6 +227,14 @@ func installHooks() {
 		}
 		return wv.(*World).onBalance(name, args), true
 	}
+	// node validators that talk to the outside world answer as a pure function of the node descriptor
+	availability.VerifHook = func(_ *availability.Validator, _ string, a []any) ([]any, bool) {
+		return []any{Reachability(a[0].(netmap.NodeInfo))}, true
+	}
+	external.VerifHook = func(_ *external.Validator, _ string, a []any) ([]any, bool) {
+		return []any{ExternalVerdict(a[0].(netmap.NodeInfo))}, true
+	}
+	innerring.VerifSetNNSCheck(NNSCheck)
 	// learn the processors' worker pools
 	addPool := func(n string, p *ants.Pool) {
 		if building == nil {
@@ -232,6 +247,10 @@ func installHooks() {
 		}
 		building.pools = append(building.pools, p)
 		building.poolNames = append(building.poolNames, n)
+		if building.poolRank == nil {
+			building.poolRank = map[*ants.Pool]int{}
+		}
+		building.poolRank[p] = map[string]int{"netmap": 0, "governance": 1}[n] + 2*map[bool]int{true: 0, false: 1}[n == "netmap" || n == "governance"]
 	}
 	palphabet.VerifHook = func(p *palphabet.Processor, _ string, _ []any) ([]any, bool) { addPool("alphabet", p.VerifPool()); return nil, false }
 	pbalance.VerifHook = func(p *pbalance.Processor, _ string, _ []any) ([]any, bool) { addPool("balance", p.VerifPool()); return nil, false }
@@ -257,6 +276,7 @@ type Options struct {
 	AllowEC       bool
 	Log           *zap.Logger
 	NoStart       bool // build only (Server.Start is not called)
+	ExternalValidator bool // configure sn_validator (the external node validator)
 }
 
 // AlphabetKey returns the i-th alphabet key of every world (shared universe).
@@ -340,9 +360,12 @@ func New(label string, o Options, init func(w *World)) (w *World, err error) {
 	cfg.Emit.Storage.Amount = o.StorageEmission
 	cfg.Emit.Mint = irconfig.Mint{Value: 20000000, CacheSize: 100, Threshold: 1}
 	cfg.Emit.Gas.BalanceThreshold = 0
-	cfg.Workers = irconfig.Workers{Alphabet: 1, Balance: 1, Container: 1, NeoFS: 1, Netmap: 1, Reputation: 1}
+	cfg.Workers = irconfig.Workers{Alphabet: 2, Balance: 2, Container: 2, NeoFS: 2, Netmap: 2, Reputation: 2}
 	cfg.Indexer.CacheTimeout = 0
 	cfg.Experimental.AllowEC = o.AllowEC
+	if o.ExternalValidator {
+		cfg.Validator = irconfig.Validator{Enabled: true, URL: "http://verif.invalid/validate"}
+	}
 
 	ctx, cancel := context.WithCancel(context.Background())
 	w.cancel = cancel
@@ -361,11 +384,28 @@ func New(label string, o Options, init func(w *World)) (w *World, err error) {
 		w.Close()
 		return nil, fmt.Errorf("expected 7 processor pools, learnt %v", w.poolNames)
 	}
+	sort.SliceStable(w.pools, func(i, j int) bool { return w.poolRank[w.pools[i]] < w.poolRank[w.pools[j]] })
+	sort.Strings(w.poolNames) // names only used in diagnostics
+	w.anchor = make(chan struct{})
+	for _, p := range w.pools {
+		p.Tune(2) // the governance pool is created with capacity 1
+		if err = p.Submit(func() { <-w.anchor }); err != nil {
+			w.Close()
+			return nil, fmt.Errorf("anchor task: %w", err)
+		}
+	}
+	w.ctx, w.errCh = ctx, errCh
 	if !o.NoStart {
-		w.StartErr = w.Srv.Start(ctx, errCh)
-		w.Quiesce()
+		w.Start()
 	}
 	return w, nil
+}
+
+// Start runs the real Server.Start (once) and waits for the pools.
+func (w *World) Start() error {
+	w.StartErr = w.Srv.Start(w.ctx, w.errCh)
+	w.Quiesce()
+	return w.StartErr
 }
 
 // Close releases the world's resources.
@@ -376,12 +416,12 @@ func (w *World) Close() {
 	if w.cancel != nil {
 		w.cancel()
 	}
-	if w.FS != nil {
-		worlds.Delete(w.FS)
+	if w.anchor != nil {
+		close(w.anchor)
+		w.anchor = nil
 	}
-	if w.Main != nil {
-		worlds.Delete(w.Main)
-	}
+	// the clients stay registered: the listeners' goroutines started by Server.Start may still call
+	// lifecycle methods (Notifications, Receive*, Close) after this point
 	if w.dir != "" {
 		os.RemoveAll(w.dir)
 	}
@@ -614,6 +654,10 @@ func (w *World) onClient(c *client.Client, name string, a []any) []any {
 		w.mu.Lock()
 		defer w.mu.Unlock()
 		return []any{w.T.NNSUsers[a[0].(string)+"/"+a[1].(util.Uint160).StringLE()], nil}
+	case "InvokeContainedScript":
+		// N3 contract-account witnesses are not modelled: the chain never confirms one
+		rd()
+		return []any{&result.Invoke{State: "HALT", Stack: []stackitem.Item{stackitem.NewBool(false)}}, nil}
 	case "ProbeNotary", "IsNotaryEnabled":
 		return []any{true}
 	case "EnableNotarySupport", "InitFSChainScope", "ReceiveExecutionNotifications", "ReceiveHeaders",
@@ -705,23 +749,76 @@ func (w *World) onBalance(name string, _ []any) []any {
 }
 
 
-// Quiesce returns when every processor pool has finished all work submitted before the call
-// (and the work that work submitted to other pools).
+// Quiesce returns when every task submitted to a processor pool before the call (and every task those tasks
+// submitted to other pools) has completed. It is exact, not time based. Every pool permanently hosts one
+// parked "anchor" task of the harness (capacity is 2: anchor + one event). A pool with more than one live
+// worker is closed (Release): a closed pool makes each worker exit as soon as its current task returns; the
+// worker count falling back to 1 (the anchor) is awaited by yielding; then the pool is reopened (Reboot).
+// The anchor keeps the count above zero, so ants' own "last worker gone" bookkeeping never runs concurrently
+// with Reboot. The netmap pool is visited before the governance pool (the only cross-pool submission) and two
+// consecutive passes must find every pool with the anchor only. Deliveries are made by the goroutine that
+// calls Quiesce, so no handler ever meets a closed pool.
 func (w *World) Quiesce() {
-	for pass := 0; pass < 2; pass++ {
+	clean := 0
+	for clean < 2 {
+		busy := false
 		for i, p := range w.pools {
-			ch := make(chan struct{})
-			for {
-				err := p.Submit(func() { close(ch) })
-				if err == nil {
-					break
-				}
-				if errors.Is(err, ants.ErrPoolClosed) {
-					panic(HarnessPanic{"pool closed: " + w.poolNames[i]})
-				}
-				runtime.Gosched()
+			if p.Running() <= 1 {
+				continue
 			}
-			<-ch
+			busy = true
+			p.Release()
+			for n := 0; p.Running() > 1; n++ {
+				runtime.Gosched()
+				if n > 1<<36 {
+					panic(HarnessPanic{"pool never becomes idle: " + w.poolNames[i]})
+				}
+			}
+			p.Reboot()
+		}
+		if busy {
+			clean = 0
+		} else {
+			clean++
 		}
 	}
+}
+
+// ---- environment of the node validators (pure functions of the descriptor) ----
+
+// Reachability models dialling the candidate: hosts containing "down" do not answer, hosts containing
+// "liar" answer with different node information.
+func Reachability(ni netmap.NodeInfo) error {
+	for e := range ni.NetworkEndpoints() {
+		if strings.Contains(e, "down") {
+			return errors.New("irworld: node does not answer on " + e)
+		}
+		if strings.Contains(e, "liar") {
+			return errors.New("irworld: node on " + e + " reports different information")
+		}
+	}
+	return nil
+}
+
+// ExternalVerdict models the external validation service: it rejects nodes with attribute ExternalVerdict=reject.
+func ExternalVerdict(ni netmap.NodeInfo) error {
+	if ni.Attribute("ExternalVerdict") == "reject" {
+		return errors.New("irworld: external validator says no")
+	}
+	return nil
+}
+
+// VerifiedDomain is the only NNS domain with records; it lists exactly the node with label "listed".
+const VerifiedDomain = "nodes.verified"
+
+// NNSCheck models the NNS contract: VerifiedDomain has one TXT record (the Neo address of node "listed").
+func NNSCheck(domain, record string) error {
+	if domain != VerifiedDomain {
+		return errors.New("irworld: domain not found")
+	}
+	_, k := Node("listed")
+	if record == "address="+k.PublicKey().Address() {
+		return nil
+	}
+	return privatedomains.ErrMissingDomainRecord
 }
